@@ -69,6 +69,10 @@ class AimdRateControl:
                 self.current_bitrate = estimated_throughput
                 self.current_bitrate_initialized = True
 
+        # remember the latest measured throughput, even while waiting for initialisation
+        if estimated_throughput is not None:
+            self.latest_estimated_throughput = estimated_throughput
+
         # wait for initialisation or overuse
         if (
             not self.current_bitrate_initialized
@@ -90,9 +94,7 @@ class AimdRateControl:
 
         # helper variables
         new_bitrate = self.current_bitrate
-        if estimated_throughput is not None:
-            self.latest_estimated_throughput = estimated_throughput
-        else:
+        if estimated_throughput is None:
             estimated_throughput = self.latest_estimated_throughput
         estimated_throughput_kbps = estimated_throughput / 1000
 
